@@ -6,6 +6,8 @@ only the property text) and measures whether the checks catch it.
                                            (suite passes with the change; demo fails with it and passes without it)
   ./seedcheck.py run <N> [PROP ...]        apply seeded/<N>/patch.diff to /repo, run the quick checks of the property
                                            (and any others named), ALWAYS restore /repo, record results in meta.json
+  ./seedcheck.py demo <N>                  does the seed's own demonstration still fail with its change applied to
+                                           /repo's current HEAD? (later "fix:" commits can neutralise a seeded change)
 """
 import glob, json, os, shutil, subprocess, sys, time
 
@@ -94,6 +96,38 @@ def run(name, props):
     return 0
 
 
+def demo(name):
+    """Does the seed's own demonstration still fail with its change applied to /repo's current HEAD?"""
+    d = os.path.join(ROOT, "seeded", name)
+    meta = json.load(open(os.path.join(d, "meta.json")))
+    wt = "/tmp/verif-seeddemo-%d" % os.getpid()
+    sh("git -C %s worktree remove --force %s" % (REPO, wt))
+    sh("git -C %s worktree add -q --detach %s HEAD" % (REPO, wt))
+    try:
+        rc, o = sh("git apply %s" % os.path.join(d, "patch.diff"), cwd=wt)
+        if rc != 0:
+            print(name, "patch does not apply")
+            return 2
+        demos = meta.get("demo_files", [])
+        for f in demos:
+            dst = os.path.join(wt, f)
+            os.makedirs(os.path.dirname(dst), exist_ok=True)
+            shutil.copy2(os.path.join(d, "demo", f), dst)
+        pkgs = sorted({"./" + os.path.dirname(f) if os.path.dirname(f) else "." for f in demos})
+        race = "-race " if meta["property"] == "C15" else ""
+        res = []
+        for k in range(3):
+            rc, o = sh("go test %s-vet=off -count=1 -run 'Seed|seed|SEED' %s 2>&1 | grep -E '^(--- FAIL|FAIL|ok|panic)' | head -5" % (race, " ".join(pkgs)), cwd=wt)
+            res.append("fails" if ("FAIL" in o or "panic" in o) else "passes")
+        out = "fails" if "fails" in res else "passes"
+        meta["demo_at_head"] = dict(head=sh("git -C %s rev-parse --short HEAD" % REPO)[1].strip(), result=out, runs=res)
+        json.dump(meta, open(os.path.join(d, "meta.json"), "w"), indent=1)
+        print(name, "demo with the change at HEAD:", out, res)
+    finally:
+        sh("git -C %s worktree remove --force %s" % (REPO, wt))
+    return 0
+
+
 if __name__ == "__main__":
     a = sys.argv[1:]
     if a[0] == "collect":
@@ -106,3 +140,5 @@ if __name__ == "__main__":
         sys.exit(collect(a[1], name, src))
     if a[0] == "run":
         sys.exit(run(a[1], a[2:]))
+    if a[0] == "demo":
+        sys.exit(demo(a[1]))
